@@ -555,3 +555,54 @@ def complete_check_rules(res, fx):
         res.bad(r, 'unknown-reaches-decide', fx.loc(ct), 'a theory check can return TRes::UNKNOWN (%s) and checkTheory maps UNKNOWN to Decide: an undecided complete check ends the search with sat' % (unk or 'checkIntegersAndSplit'))
     else:
         res.ok(r, 'no TSolver::check returns UNKNOWN; cutFromProof\'s UNKNOWN is consumed in checkIntegersAndSplit')
+
+
+# ------------------------------------------------------------------ conflict-clause minimisation scratch state
+def minimisation_rule(res, fx):
+    r = res.rule('minimisation-scratch-restored', 'CoreSMTSolver::litRedundant un-marks every `seen` entry it set (from `top` on) and shrinks analyze_toclear before every exit that answers '
+                 '"not redundant": marks of an aborted walk must not make later literals of the same learnt clause look implied', floor=2)
+    f = fx.func('opensmt::CoreSMTSolver::litRedundant')
+
+    def unmark(n):
+        aa = as_assign(n)
+        if not aa:
+            return False
+        p = path_of(aa[0]) or ''
+        rv = see_through(aa[1])
+        return p.startswith('this.seen') and isinstance(rv, dict) and rv.get('k') == 'lit' and rv.get('v') in (0, False)
+    # every `return false` inside the walk loop: its block must first run the un-mark loop (from `top`) and shrink analyze_toclear
+    loops = [n for n in walk(f['body']) if n.get('k') == 'loop' and n.get('kind') == 'while']
+    if not loops:
+        raise AnalysisBroken('litRedundant: walk loop not found')
+    n_false = 0
+    bad = []
+    for blk in (b for b in walk(loops[0]['body']) if b.get('k') == 'seq'):
+        items = [x for x in blk['c'] if isinstance(x, dict)]
+        for i, st in enumerate(items):
+            if st.get('k') == 'ret' and isinstance(see_through(st.get('e')), dict) and see_through(st['e']).get('v') is False:
+                n_false += 1
+                before = items[:i]
+                has_unmark = any(b.get('k') == 'loop' and any(unmark(y) for y in walk(b['body']) if isinstance(y, dict)) and 'top' in str(b.get('init')) for b in before)
+                has_shrink = any(is_call(y, 'shrink', 'this.analyze_toclear') for b in before for y in walk(b))
+                if not (has_unmark and has_shrink):
+                    bad.append(st.get('ln'))
+    # a `return false` that is the sole statement of an if-branch (no block) has no cleanup at all
+    for n in walk(loops[0]['body']):
+        if n.get('k') == 'if':
+            for br in (n.get('then'), n.get('else')):
+                if isinstance(br, dict) and br.get('k') == 'ret' and isinstance(see_through(br.get('e')), dict) and see_through(br['e']).get('v') is False:
+                    n_false += 1
+                    bad.append(br.get('ln'))
+    if n_false == 0:
+        raise AnalysisBroken('litRedundant: no `return false` exit inside the walk loop')
+    if bad:
+        res.bad(r, 'minimisation-marks-leak', fx.loc(f, bad[0]), 'CoreSMTSolver::litRedundant returns false at line %s without un-marking the `seen` entries of the aborted walk: a later literal of the same '
+                'conflict is then dropped as "implied" although it is not, the learnt clause is unsound and a satisfiable input can be answered unsat (only under configurations that minimise)' % sorted(set(bad)))
+    else:
+        res.ok(r, 'litRedundant: %d negative exits inside the walk, all after un-marking from `top` and shrinking' % n_false)
+    # analyze clears every mark at its end
+    an = fx.func('opensmt::CoreSMTSolver::analyze')
+    if any(x.get('k') == 'loop' and any(unmark(y) for y in walk(x['body']) if isinstance(y, dict)) and 'analyze_toclear' in str(x) for x in walk(an['body'])):
+        res.ok(r, 'analyze: clears seen[] for all of analyze_toclear at its end')
+    else:
+        res.bad(r, 'analyze-marks-leak', fx.loc(an), 'CoreSMTSolver::analyze no longer clears the seen[] marks of analyze_toclear before returning')
